@@ -1522,9 +1522,14 @@ def argsort(a, axis=-1, kind=None, stable=None):
         it = [builtins.bool(x) for x in it]  # a boolean key: decided element by element (forks)
     if builtins.any(core.is_sym(x) for x in it):
         raise HarnessError("argsort on symbolic data")
+    order = sorted(range(len(it)), key=lambda i: it[i])
     if len(it) > 16 and not (stable or kind in ("stable", "mergesort")):
-        raise HarnessError("argsort of more than 16 elements with numpy's default (unstable) sort")
-    return ndarray.of(sorted(range(len(it)), key=lambda i: it[i]), int64)
+        # numpy's default sort is not stable beyond 16 elements: the relative order of equal keys is
+        # unspecified.  Two of the admissible orders are explored (the stable one and ties reversed);
+        # a counterexample is replayed on the real numpy, which decides.
+        if builtins.bool(core.ENG.fresh_bool("argsort_ties_reversed")):
+            order = sorted(range(len(it)), key=lambda i: (it[i], -i))
+    return ndarray.of(order, int64)
 
 
 def searchsorted(a, v, side="left"):
